@@ -35,6 +35,9 @@ type XOp struct {
 type XCase struct {
 	Type string `json:"type"`
 	Base []byte `json:"base,omitempty"` // reference encoding of the regular (non-extension) fields the message starts with
+	// an undeclared field inside the extension range (number, varint value) the message is DECODED with by its
+	// owning runtime at the start: gogo / golang keep such a field with the extensions, Google v2 as unknown
+	Undeclared int32 `json:"undeclared,omitempty"`
 	Prog []XOp  `json:"prog"`
 }
 
@@ -143,6 +146,7 @@ type extRuntime struct {
 	set      func(m any, d any, v any) error
 	clear    func(m any, d any)
 	clearAll func(m any)
+	list     func(m any) map[int32]bool // the extension numbers the runtime's own enumeration reports
 }
 
 var extRuntimes = map[string]*extRuntime{
@@ -159,19 +163,43 @@ var extRuntimes = map[string]*extRuntime{
 		clearAll: func(m any) {
 			pm := m.(proto.Message)
 			proto.RangeExtensions(pm, func(xt protoreflect.ExtensionType, _ any) bool { proto.ClearExtension(pm, xt); return true })
+		},
+		list: func(m any) map[int32]bool {
+			out := map[int32]bool{}
+			proto.RangeExtensions(m.(proto.Message), func(xt protoreflect.ExtensionType, _ any) bool {
+				out[int32(xt.TypeDescriptor().Number())] = true
+				return true
+			})
+			return out
 		}},
 	"gogo": {
 		has:      func(m, d any) bool { return gogo.HasExtension(m.(gogo.Message), d.(*gogo.ExtensionDesc)) },
 		get:      func(m, d any) (any, error) { return gogo.GetExtension(m.(gogo.Message), d.(*gogo.ExtensionDesc)) },
 		set:      func(m, d, v any) error { return gogo.SetExtension(m.(gogo.Message), d.(*gogo.ExtensionDesc), v) },
 		clear:    func(m, d any) { gogo.ClearExtension(m.(gogo.Message), d.(*gogo.ExtensionDesc)) },
-		clearAll: func(m any) { gogo.ClearAllExtensions(m.(gogo.Message)) }},
+		clearAll: func(m any) { gogo.ClearAllExtensions(m.(gogo.Message)) },
+		list: func(m any) map[int32]bool {
+			out := map[int32]bool{}
+			ds, _ := gogo.ExtensionDescs(m.(gogo.Message))
+			for _, d := range ds {
+				out[d.Field] = true
+			}
+			return out
+		}},
 	"legacy": {
 		has:      func(m, d any) bool { return golang.HasExtension(m.(golang.Message), d.(*golang.ExtensionDesc)) },
 		get:      func(m, d any) (any, error) { return golang.GetExtension(m.(golang.Message), d.(*golang.ExtensionDesc)) },
 		set:      func(m, d, v any) error { return golang.SetExtension(m.(golang.Message), d.(*golang.ExtensionDesc), v) },
 		clear:    func(m, d any) { golang.ClearExtension(m.(golang.Message), d.(*golang.ExtensionDesc)) },
-		clearAll: func(m any) { golang.ClearAllExtensions(m.(golang.Message)) }},
+		clearAll: func(m any) { golang.ClearAllExtensions(m.(golang.Message)) },
+		list: func(m any) map[int32]bool {
+			out := map[int32]bool{}
+			ds, _ := golang.ExtensionDescs(m.(golang.Message)) //nolint:staticcheck
+			for _, d := range ds {
+				out[d.Field] = true
+			}
+			return out
+		}},
 }
 
 func init() { extRuntimes["gv1gen"] = extRuntimes["gv2"] }
@@ -205,6 +233,7 @@ func wireNumbersOf(rtName string, m any) map[int]int {
 func oracleC12(c *XCase) (fail *ev.Failure, st struct {
 	steps, setThenClear int
 	regular             bool
+	undeclared          bool
 }) {
 	loadCorpus()
 	mt := typeByKey[c.Type]
@@ -222,6 +251,15 @@ func oracleC12(c *XCase) (fail *ev.Failure, st struct {
 		FromDynamic(decodeRef(mt.Desc, c.Base), live)
 		FromDynamic(decodeRef(mt.Desc, c.Base), twin)
 		st.regular = true
+	}
+	if c.Undeclared > 0 {
+		raw := refwire.AppendVarint(refwire.AppendKey(append([]byte{}, c.Base...), int(c.Undeclared), 0), 7)
+		live, twin = mt.New(), mt.New()
+		if err := runtimes[mt.Info.Runtime].unmarshal(raw, live); err != nil {
+			panic("harness: owning runtime rejects " + fmt.Sprintf("%x: %v", raw, err))
+		}
+		_ = runtimes[mt.Info.Runtime].unmarshal(raw, twin)
+		st.undeclared = true
 	}
 	model := map[int32]string{}
 	stage := ""
@@ -284,9 +322,15 @@ func oracleC12(c *XCase) (fail *ev.Failure, st struct {
 					return ev.Failf(sig("range-misses-set-extension"), "step %d: extension %d is set but RangeExtensions visited %v", i, n, keys(seen)), st
 				}
 			}
+			theirs := xr.list(twin) // what the owning runtime's own enumeration reports on the twin
 			for n := range seen {
-				if _, ok := model[n]; !ok {
+				if _, ok := model[n]; !ok && !theirs[n] {
 					return ev.Failf(sig("range-visits-unset-extension"), "step %d: RangeExtensions visited %d which is not set (set: %v)", i, n, model), st
+				}
+			}
+			for n := range theirs {
+				if !seen[n] {
+					return ev.Failf(sig("range-misses-extension-the-runtime-reports"), "step %d: the owning runtime's enumeration reports extension %d, RangeExtensions visited %v", i, n, keys(seen)), st
 				}
 			}
 		case "set-foreign", "has-foreign", "get-foreign":
@@ -372,7 +416,7 @@ func extTypes() []*MsgType {
 
 var c12Kinds = []string{"set", "set", "set", "get", "has", "clear", "clear", "clearall", "range", "range", "marshal", "number", "set-foreign", "has-foreign", "get-foreign"}
 
-const ruleC12 = "case = a proto2 message type with extensions (one file per extension kind: 15 scalars, enum, message; plus file-scope / nested-scope / multiple extensions / extensions with defaults), 2 in 3 starting with its regular fields populated, of gogo / Google v1 (legacy) / Google v2, plain and fast-marshal, + a program of <= 30 ops over {Set, Get, Has, Clear, ClearAll, Range, Marshal, ExtensionFieldNumber, and Set/Has/Get with the descriptor of ANOTHER runtime}; model map[number]value AND a twin message driven through the owning runtime's own extension API with the same ops: after each step Has/Get agree with both, after Clear/ClearAll/Marshal the extension's number is on the wire iff it is set, Range visits exactly the set numbers, a foreign descriptor yields false / an error and leaves the message equal to its twin; non-trivial = a program with >= 1 Set followed later by Clear / ClearAll / Range; distinct by program"
+const ruleC12 = "case = a proto2 message type with extensions (one file per extension kind: 15 scalars, enum, message; plus file-scope / nested-scope / multiple extensions / extensions with defaults), 2 in 3 starting with its regular fields populated, 1 in 4 decoded by its runtime from bytes that carry an undeclared field inside the extension range, of gogo / Google v1 (legacy) / Google v2, plain and fast-marshal, + a program of <= 30 ops over {Set, Get, Has, Clear, ClearAll, Range, Marshal, ExtensionFieldNumber, and Set/Has/Get with the descriptor of ANOTHER runtime}; model map[number]value AND a twin message driven through the owning runtime's own extension API with the same ops: after each step Has/Get agree with both, after Clear/ClearAll/Marshal the extension's number is on the wire iff it is set, Range visits exactly the set numbers and exactly what the owning runtime's own enumeration reports on the twin, a foreign descriptor yields false / an error and leaves the message equal to its twin; non-trivial = a program with >= 1 Set followed later by Clear / ClearAll / Range; distinct by program"
 
 func TestC12(t *testing.T) {
 	rec := ev.New("C12", ruleC12)
@@ -387,6 +431,12 @@ func TestC12(t *testing.T) {
 	ev.Rapid(t, ev.N(8000, 150000), 12, func(rt *rapid.T) {
 		mt := rapid.SampledFrom(mine).Draw(rt, "type")
 		c := &XCase{Type: mt.Key()}
+		if rapid.IntRange(0, 3).Draw(rt, "undeclared") == 0 {
+			// a number inside the extension range of the message that no extension declares
+			if n := undeclaredExtNumber(mt); n > 0 {
+				c.Undeclared = n
+			}
+		}
 		if rapid.IntRange(0, 2).Draw(rt, "regular") != 0 {
 			// regular fields populated next to the extensions
 			c.Base, _ = refMarshal.Marshal(genDyn(rt, mt.Desc, 1, genOpts{runtime: mt.Info.Runtime, requiredProb: 10, noExt: true, jsonSafe: true}))
@@ -415,6 +465,9 @@ func TestC12(t *testing.T) {
 		if st.regular {
 			rec.Class("regular-fields-populated")
 		}
+		if st.undeclared {
+			rec.Class("decoded-with-an-undeclared-field-in-the-extension-range")
+		}
 		if st.setThenClear > 0 {
 			cj, _ := json.Marshal(c)
 			rec.NonTrivial(ev.FP(cj))
@@ -422,6 +475,23 @@ func TestC12(t *testing.T) {
 		}
 		rec.Check(rt, "xcase", c, f)
 	})
+}
+
+// undeclaredExtNumber: a number inside an extension range of mt that no extension of the corpus declares.
+func undeclaredExtNumber(mt *MsgType) int32 {
+	used := map[int32]bool{}
+	for _, xt := range extensionsOf(mt.Desc) {
+		used[int32(xt.TypeDescriptor().Number())] = true
+	}
+	rs := mt.Desc.ExtensionRanges()
+	for i := 0; i < rs.Len(); i++ {
+		for n := rs.Get(i)[1] - 1; n >= rs.Get(i)[0]; n-- {
+			if !used[int32(n)] && (n < 19000 || n > 19999) {
+				return int32(n)
+			}
+		}
+	}
+	return 0
 }
 
 func progKinds(p []XOp) []string {
